@@ -145,6 +145,7 @@ type FnVC struct {
 	tagLines map[int][]int // line indices per tag
 	siteN   int
 	elemLocs map[string]bool
+	nilableLocs map[string]bool // element locations of containers declared `nilable`
 	skolems []skolem
 	okTerms map[string]okFact // Bool term of a comma-ok type assertion -> what it tests
 }
@@ -157,7 +158,7 @@ type okFact struct {
 func newFnVC(e *Engine, f *ssa.Function, ct *Contract) *FnVC {
 	return &FnVC{eng: e, top: f, ct: ct, curTag: -1, anc: map[int]map[int]bool{}, heapTab: map[string]*heapInfo{},
 		strLits: map[string]string{}, gids: map[ssa.Value]int{}, notes: map[string]bool{}, ufDecl: map[string]bool{}, implDecl: map[string]bool{},
-		closures: map[string]*closureRec{}, ranges: map[*ssa.Range]*rangeRec{}, usedExternal: map[string]bool{}, usedContracts: map[string]bool{}, implTypes: map[string]types.Type{}, okTerms: map[string]okFact{}, elemLocs: map[string]bool{}}
+		closures: map[string]*closureRec{}, ranges: map[*ssa.Range]*rangeRec{}, usedExternal: map[string]bool{}, usedContracts: map[string]bool{}, implTypes: map[string]types.Type{}, okTerms: map[string]okFact{}, elemLocs: map[string]bool{}, nilableLocs: map[string]bool{}}
 }
 
 func (fv *FnVC) emit(text string) {
@@ -758,7 +759,7 @@ func (fv *FnVC) load(st *State, loc string, t types.Type) Val {
 	h := fv.heapOf(st, leafKey(t), v.sortOf())
 	v.T = fv.def("ld", v.sortOf(), fv.loadRaw(h, loc))
 	fv.assumeWF(st, v)
-	if v.K == KIface && (strings.HasPrefix(loc, "(LElem ") || fv.elemLocs[loc]) && fv.boundDepth == 0 && canonType(t) == modPath+".Object" {
+	if v.K == KIface && (strings.HasPrefix(loc, "(LElem ") || fv.elemLocs[loc]) && fv.boundDepth == 0 && canonType(t) == modPath+".Object" && !fv.nilableLocs[loc] {
 		// input assumption: in the state at function entry, Object values held
 		// in arrays are never Go nil (stated about the entry heap only, so it
 		// cannot contradict later writes)
